@@ -13,7 +13,7 @@ pkgdir=$(dirname "$place")
 runname=$(echo "$runcmd" | grep -oE "\-run '?[A-Za-z0-9_|^$]+'?" | sed "s/-run //; s/'//g")
 echo "seed=$SD place=$place mod=$moddir run=$runname"
 cp "$demo" "$WT/$place"
-rel=./${pkgdir#$moddir/}
+rel=./${pkgdir#$moddir/}; [ "$pkgdir" = "$moddir" ] && rel=.
 ( cd $moddir && go test $rel -run "$runname" -count=1 > /var/tmp/seed_demo_clean.log 2>&1 ); c1=$?
 git apply "$SD/patch.diff" || { echo "PATCH DOES NOT APPLY"; exit 2; }
 ( cd $moddir && go test $rel -run "$runname" -count=1 > /var/tmp/seed_demo_patched.log 2>&1 ); c2=$?
